@@ -5,6 +5,7 @@ import UF.Model.HostRule
 import UF.Spec.HostLine
 import UF.Model.RequestNew
 import UF.Spec.Request
+import UF.Compose2.NewRuleFull
 /- Ops of work group H (see notes/AGENT_GUIDE.md). Return `none` for ops of other groups. -/
 namespace UF.Ops.H
 open UF UF.H
@@ -98,7 +99,7 @@ def opC18Hostline (args : List W) : String :=
     match line.bytes?, decAddrTable addrs, decBoolTable dns with
     | some line, some addrs, some dns =>
       let ext := mkExt [] addrs []
-      let dn := tableLookup dns false
+      let dn := fun name => (tableLookup dns false name, UF.I2.isDomainNameB name).2  -- the MODEL of IsDomainName (group E), not the Go table
       encExcept encHostRule (newHostRule ext dn line 1) ++ " " ++ specHostRecord ext dn line
     | _, _, _ => "bad-decode"
   | _ => "bad-arity"
@@ -114,7 +115,7 @@ def opC18Newrule (args : List W) : String :=
       | none => "ood ood"
       | some line =>
         let ext := mkExt [] addrs []
-        let dn := tableLookup dns false
+        let dn := fun name => (tableLookup dns false name, UF.I2.isDomainNameB name).2  -- the MODEL of IsDomainName (group E), not the Go table
         let m := match newRuleKind ext dn line 1 with
           | .skipped => "skip" | .cosmetic => "cos" | .network => "net" | .crash => "PANIC"
           | .host r => tok (encHostRule r)
@@ -137,7 +138,7 @@ def opC18Dns (args : List W) : String :=
       | none => "ood ood"
       | some line =>
         let ext := mkExt [] addrs []
-        let dn := tableLookup dns false
+        let dn := fun name => (tableLookup dns false name, UF.I2.isDomainNameB name).2  -- the MODEL of IsDomainName (group E), not the Go table
         let fmt (f : Bytes → Bool × Bool) : String :=
           outList (qs.map fun q => let (a, b) := f q; outBool a ++ outBool b)
         let m := match newRuleKind ext dn line 1 with
